@@ -19,7 +19,7 @@ P = {
   "Lean 4 proof (model = grammar spec) + exhaustive/random differential correspondence model vs Set.Filter",
   "DESIGN.md §5 C17"),
  "C03": (True,
-  "Lean theorems: the modelled rule interpreter (mirror of UnpackRule / verifyMatchRule / VerifyArtifacts incl. in-place clean-up) equals a pointwise declarative specification of the in-toto queue algorithm for every rule list, queue and link context with clean artifact names (interpreter_eq_spec), plus corollaries (exact consumption, order, DISALLOW/REQUIRE failure conditions, permutation invariance, MATCH prefix and hash requirements, rule grammar incl. case-insensitivity, malformed rule = error), and at the level of VerifyArtifacts: an item is accepted iff it has a link, both rule lists parse and the spec accepts materials and products against the created/deleted/modified sets of its own link; all items iff each; item order irrelevant. The model is run beside the real VerifyArtifacts/UnpackRule on a small universe with EVERY rule list of length <= 2 over a 38-rule alphabet, on random larger instances (incl. unclean paths, nil maps) and on mutated token lists.",
+  "Lean theorems: the modelled rule interpreter (mirror of UnpackRule / verifyMatchRule / VerifyArtifacts incl. in-place clean-up) equals a pointwise declarative specification of the in-toto queue algorithm for every rule list, queue and link context with clean artifact names (interpreter_eq_spec), plus corollaries (exact consumption, order, DISALLOW/REQUIRE failure conditions, permutation invariance, MATCH prefix and hash requirements, rule grammar incl. case-insensitivity, malformed rule = error), and at the level of VerifyArtifacts: an item is accepted iff it has a link, both rule lists parse and the spec accepts materials and products against the created/deleted/modified sets of its own link; all items iff each; item order irrelevant. The model is run beside the real VerifyArtifacts/UnpackRule on a small universe with EVERY rule list of length <= 2 over a 42-rule alphabet, on random larger instances (incl. unclean paths, nil maps) and on mutated token lists.",
   COMMON_NOTE + "reflect.DeepEqual on hash maps is modelled as equality of sorted association lists with nil kept distinct; artifact-name collisions after path cleaning (order-dependent in Go) are outside the model's domain.",
   "Lean 4 proof (interpreter = declarative queue spec) + exhaustive-small-universe/random differential correspondence model vs VerifyArtifacts",
   "DESIGN.md §5 C03"),
